@@ -5,11 +5,17 @@ import itertools
 from .. import core, util
 from ..sexp import Atom
 
-ALPHA = ["<", ">", "/", "%", "#", "(", ")", "$", "a", "1", "-", " ", "\t", " ", "é"]
+ALPHA = ["<", ">", "/", "%", "#", "(", ")", "$", "a", "1", "-", " ", "\t", "\u2003", "\u00e9"]
+assert len(set(ALPHA)) == 15        # written with escapes: an editor once turned the Unicode blank into a second U+0020
+# the alphabet of the text between the brackets of a section header / closer: ALPHA plus a capital (headers are lower-cased)
+HDR_ALPHA = ALPHA + ["A"]
 RULE = ("single lines enumerated exhaustively over the 15-class alphabet up to the tier's length, each parsed by the real "
         "ZConfigParser with a recording context and classified by the model and by the documented grammar; all texts of up "
         "to 3/4 lines over one representative per line shape through the recording context and schemaless.loadConfigFile; "
-        "random texts up to 40 lines and nesting depth 6; non-trivial = not blank/comment only; distinct by text")
+        "random texts up to 40 lines and nesting depth 6 (closers and openers also spelled with blanks inside the brackets); "
+        "bracket spellings: every text w of up to 3 (thorough 4) characters over the alphabet + 'A' as closer '</w>' behind open "
+        "sections, as opener '<w>' before a closer and as '<w/>', real parser vs model; "
+        "non-trivial = not blank/comment only; distinct by text")
 
 SHAPES = ["", "# c", "<a>", "<a n>", "<A  N >", "<a/>", "<a n/>", "<a/ >", "</a>", "</A >", "</b>", "<b>", "k v", "k", "k  v  w ",
           "K V", "k $$v", "%define x y", "%define X", "%import p.q", "%include f", "%bogus x", "%define", "%", "<", "<a", "a>",
@@ -120,6 +126,26 @@ def shape_of_events(line, r):
     return r
 
 
+PADS = [" ", "\t", "  ", "\u2003", "\x0c", "\u00a0"]
+
+
+def bracket_spelling_texts(maxw):
+    """every text w of up to maxw characters over HDR_ALPHA written where a section type is expected: as the closer '</w>' of
+    open sections (one open, one open with a key and a name, two nested), as the opener '<w>' followed by a closer, and as the
+    empty form '<w/>'.  What is between the brackets decides which section is opened or closed, and a closer's fate depends
+    on the open-section stack, which no one-line text shows."""
+    out = []
+    for w in util.enum_strings(HDR_ALPHA, maxw):
+        out.append(["<a>", "</" + w + ">"])
+        out.append(["<A n>", "k v", "  </" + w + ">  "])
+        out.append(["<b>", "<a>", "</" + w + ">", "</b>"])
+        out.append(["<a>", "<b/>", "</" + w + ">", "</" + w + ">"])
+        out.append(["<" + w + ">", "</a>"])
+        out.append(["<" + w + ">", "k", "</A >"])
+        out.append(["<" + w + "/>"])
+    return out
+
+
 def random_text(rng):
     depth = 0
     stack = []
@@ -133,13 +159,17 @@ def random_text(rng):
             if rng.random() < 0.25:
                 lines.append(ind + "<" + t + n + rng.choice(["/>", " />"]))
             else:
-                lines.append(ind + "<" + t + n + ">")
+                lines.append(ind + "<" + (rng.choice(PADS) if rng.random() < 0.04 else "") + t + n + ">")
                 stack.append(t)
                 depth += 1
         elif k < 0.35 and stack:
             t = stack.pop()
             depth -= 1
-            lines.append(ind + "</" + (t if rng.random() < 0.9 else t + "x") + rng.choice(["", " "]) + ">")
+            # the closer as written: mostly '</t>' or '</t >', sometimes another type, another case, blanks BEFORE the type
+            w = t if rng.random() < 0.9 else t + "x"
+            if rng.random() < 0.2:
+                w = w.upper() if len(w.upper()) == len(w) else w
+            lines.append(ind + "</" + (rng.choice(PADS) if rng.random() < 0.06 else "") + w + rng.choice(["", " ", "", "\t", "\u2003 "]) + ">")
         elif k < 0.45:
             lines.append(rng.choice(["", "#", "# <a>", "   ", "\x0c"]))
         elif k < 0.55:
@@ -152,6 +182,27 @@ def random_text(rng):
         while stack:
             lines.append("</" + stack.pop() + ">")
     return lines
+
+
+def compare_texts(ctx, texts, stream):
+    """the real parser with a recording context against the model of the grammar (= the documented grammar: C03_classify_eq_spec,
+    C03_accept_iff_nested) on whole texts: accepted or not, and the events of an accepted text"""
+    if ctx.driver_ok:
+        recs = core.driver_batch([[Atom("parse-rec"), "file:///t.conf", t] for t in texts])
+    for i, t in enumerate(texts):
+        r = real_rec(t, "file:///t.conf")
+        ctx.evaluations += 1
+        ctx.nontriv(tuple(t))
+        ctx.count(stream + ":" + (r[0] if r[0] != "cfg" else r[1]))
+        if ctx.driver_ok:
+            mrec = canon_rec(recs[i])
+            if mrec != r:
+                ctx.disagree(stream, t, r, mrec)
+                # nesting oracle: a text whose shapes are properly nested must not be a syntax error and vice versa is
+                # decided by the model (validated line by line above); report the concrete text
+                if (mrec[0] == "ok") != (r[0] == "ok") or (r[0] == "ok" and mrec[1] != r[1]):
+                    ctx.violate("text %r: parser gives %r, the grammar gives %r" % (t, r, mrec), {"lines": t, "impl": r, "model": mrec},
+                                signature="C03:%s:%s-vs-%s" % (stream, r[0], mrec[0]))
 
 
 def run(ctx):
@@ -220,25 +271,13 @@ def run(ctx):
         texts = [list(t) for n in range(1, 4) for t in itertools.product(SHAPES, repeat=n)]
         texts += [[ctx.rng.choice(SHAPES) for _ in range(4)] for _ in range(600000)]
     texts += [random_text(ctx.rng) for _ in range(20000 if ctx.thorough() else 2500)]
-    if ctx.driver_ok:
-        recs = core.driver_batch([[Atom("parse-rec"), "file:///t.conf", t] for t in texts])
-    for i, t in enumerate(texts):
-        r = real_rec(t, "file:///t.conf")
-        ctx.evaluations += 1
-        ctx.nontriv(tuple(t))
-        ctx.count("text:" + (r[0] if r[0] != "cfg" else r[1]))
-        if ctx.driver_ok:
-            mrec = canon_rec(recs[i])
-            if mrec != r:
-                ctx.disagree("text", t, r, mrec)
-                # nesting oracle: a text whose shapes are properly nested must not be a syntax error and vice versa is
-                # decided by the model (validated line by line above); report the concrete text
-                if (mrec[0] == "ok") != (r[0] == "ok") or (r[0] == "ok" and mrec[1] != r[1]):
-                    ctx.violate("text %r: parser gives %r, the grammar gives %r" % (t, r, mrec), {"lines": t, "impl": r, "model": mrec},
-                                signature="C03:text:%s-vs-%s" % (r[0], mrec[0]))
+    compare_texts(ctx, texts, "text")
+    # 2b. bracket spellings: everything that can stand between '</' and '>' while sections are open, between '<' and '>' or '/>'
+    spell = bracket_spelling_texts(4 if ctx.thorough() else 3)
+    compare_texts(ctx, spell, "bracket")
     # 3. the same texts read from a FILE the way a path or URL is read: line by line means '\n' by '\n'
     exotic = [t for t in texts if any(c in l for l in t for c in "\x0b\x0c\x1c\x1d\x1e\x85\u2028\u2029\r")]
-    sample = exotic[:300] + texts[:: max(1, len(texts) // 300)] + [["k " + "v" * 5000], ["<a>", "    k " + "w" * 9000 + " tail", "</a>"],
+    sample = exotic[:300] + texts[:: max(1, len(texts) // 300)] + spell[:: max(1, len(spell) // 100)] + [["k " + "v" * 5000], ["<a>", "    k " + "w" * 9000 + " tail", "</a>"],
                                                                        ["# " + "c" * 4090 + " k v"], ["k a\rb"], ["k v\r"]]
     for t in sample:
         r1, r2 = real_rec(t), real_rec_path(t)
@@ -249,9 +288,11 @@ def run(ctx):
                         {"lines": t, "by_path": r2, "from_stream": r1}, signature="C03:by-path-differs")
             break
     ctx.cov["exhaustive"] = True
-    ctx.cov["enumeration"] = {"alphabet": ALPHA, "maxlen": maxlen, "single_lines": len(singles), "texts": len(texts), "shapes": len(SHAPES)}
+    ctx.cov["enumeration"] = {"alphabet": ALPHA, "maxlen": maxlen, "single_lines": len(singles), "texts": len(texts), "shapes": len(SHAPES),
+                              "bracket_spellings": len(spell), "bracket_alphabet": HDR_ALPHA}
     ctx.sample({"line": singles[len(singles) // 2], "impl": real_rec([singles[len(singles) // 2]])})
     ctx.sample({"text": texts[-1], "impl": real_rec(texts[-1])})
+    ctx.sample({"bracket-spelling": spell[len(spell) // 2], "impl": real_rec(spell[len(spell) // 2])})
     return core.finish(ctx, obligations, discharged, names, RULE,
                        "lake build ZCV.Props.C03 && lake env lean ZCV/Audit/C03.lean",
                        ["lines are split at '\\n' only (StringIO.readline)", "substitution of values is C04"])
